@@ -103,7 +103,7 @@ Definition note_failure (c : option cls) (m : sim) : sim :=
 (* _run_cleanups: pops and awaits each cleanup; remembers only the LAST exception *)
 Inductive cres :=
 | CDone (last : option cls) (m : sim)
-| CCut (m : sim) (left : nat).            (* cleanups still registered *)
+| CCut (m : sim) (nleft : nat).            (* cleanups still registered *)
 
 Fixpoint run_cleanups (C : time) (cs : list (nat * stage)) (last : option cls) (m : sim) : cres :=
   match cs with
@@ -121,11 +121,11 @@ Fixpoint number_from (k : nat) (l : list stage) : list (nat * stage) :=
 (* clean_up / clean_up_done *)
 Inductive rres :=
 | Completed (m : sim)                     (* the Deferred of _run_deferred fired *)
-| Stopped (m : sim) (left : nat).         (* cut: the reactor was crashed first *)
+| Stopped (m : sim) (nleft : nat).         (* cut: the reactor was crashed first *)
 
 Definition clean_up (C : time) (p : program) (m : sim) : rres :=
   match run_cleanups C (rev (number_from 0 (i_cleanups p))) None m with
-  | CCut m' left => Stopped m' left
+  | CCut m' nleft => Stopped m' nleft
   | CDone last m' => Completed (note_failure last m')
   end.
 
@@ -228,28 +228,14 @@ Definition ev_of (c : cls) : ev :=
 
 Definition repeat_err (n : nat) : list cls := repeat CErr n.
 
-Definition run (p : program) : outcome :=
-  let C := cut_instant p in
-  let r := run_deferred C p in
-  (* _blocking_run_deferred: (successful, unhandled), the exceptions so far, stop, where the clock stands *)
-  let '(ok, unhandled, m, stop, left, extra_junk) :=
-    match r with
-    | Completed m => (Nat.eqb (m_fails m) 0, m_dropped m, m, false, 0, 0)
-    | Stopped m left =>
-        (* NoResultError / TimeoutError are logged as the user's exception; no unhandled accounting *)
-        let m' := mkSim (match cut_kind p with KInterrupt => Nat.max (m_now m) C | KTimeout => C end)
-                        (m_excs m ++ [CErr]) (m_fails m)
-                        (filter (fun u => Nat.leb C u) (m_pending m))      (* calls due before the cut instant ran *)
-                        (m_logged m) (m_dropped m) (m_log m) in
-        (false, 0, m', match cut_kind p with KInterrupt => true | KTimeout => false end, left,
-         (* the spinner's own timeout call is junk after an interrupt *)
-         match cut_kind p with KInterrupt => 1 | KTimeout => 0 end)
-    end in
+(* _run_core after _blocking_run_deferred returned (ok, unhandled): logged errors, unhandled
+   failures, junk, the single addSuccess; then _run_prepared_result reports one exception *)
+Definition finish (p : program) (ok : bool) (unhandled : nat) (stop : bool) (nleft : nat) (m : sim) : outcome :=
   let junk := junk_of p m in
   let excs := m_excs m ++ repeat_err (m_logged m) ++ repeat_err unhandled
-              ++ (match length junk + extra_junk with 0 => [] | S _ => [CErr] end) in
+              ++ (match junk with [] => [] | _ :: _ => [CErr] end) in
   let successful := ok && Nat.eqb (m_logged m) 0 && Nat.eqb unhandled 0
-                    && Nat.eqb (length junk + extra_junk) 0 in
+                    && (match junk with [] => true | _ :: _ => false end) in
   mkOut ([StartTest] ++ (if successful then [AddSuccess] else [])
            ++ (match pick excs with Some c => [ev_of c] | None => [] end) ++ [StopTest])
         stop
@@ -258,4 +244,19 @@ Definition run (p : program) : outcome :=
         (length junk)
         0                                  (* _clean cancelled every delayed call it found *)
         (observers_after p)
-        left.
+        nleft.
+
+(* the run was cut at C: NoResultError / TimeoutError is logged as a user exception; the
+   leftovers due before C have run; the clock stands at C *)
+Definition after_cut (C : time) (m : sim) : sim :=
+  mkSim C (m_excs m ++ [CErr]) (m_fails m) (filter (fun u => Nat.leb C u) (m_pending m))
+        (m_logged m) (m_dropped m) (m_log m).
+
+Definition run (p : program) : outcome :=
+  let C := cut_instant p in
+  match run_deferred C p with
+  | Completed m => finish p (Nat.eqb (m_fails m) 0) (m_dropped m) false 0 m
+  | Stopped m nleft =>
+      (* trap_unhandled_errors does no accounting when spinner.run raised; an interrupt also stops the result *)
+      finish p false 0 (match cut_kind p with KInterrupt => true | KTimeout => false end) nleft (after_cut C m)
+  end.
